@@ -109,3 +109,7 @@ impl TryFrom<&[u8]> for FooterTail {
         Self::try_new(slice)
     }
 }
+
+#[cfg(kani)]
+#[path = "/verif/kani/parquet/file/metadata/footer_tail.rs"]
+mod verif_kani;
